@@ -317,7 +317,7 @@ func checkLength(c lenCase, o *kit.Obs) error {
 type segCase struct {
 	Start kit.V2    `json:"start"`
 	Steps []kit.V2  `json:"steps"` // direction (any non-zero) of each segment
-	Lens  []float64 `json:"lens"`  // length of each segment, in [0.05, 3]
+	Lens  []float64 `json:"lens"`  // length of each segment, in [0.05, 3]; 0 (a repeated vertex) except for the last segment
 	T     []float64 `json:"t"`
 	Mesh  bool      `json:"mesh"` // build through NewSegmentCurveMesh when the vertices are distinct
 }
@@ -328,6 +328,10 @@ func genSeg(t *rapid.T) segCase {
 	for i := 0; i < n; i++ {
 		c.Steps = append(c.Steps, dir2(t, "dir"))
 		c.Lens = append(c.Lens, LogF(t, 0.05, 3, "len"))
+		// a repeated consecutive vertex: a zero-length segment anywhere but at the end
+		if i < n-1 && rapid.IntRange(0, 7).Draw(t, "repeat") == 0 {
+			c.Lens[i] = 0
+		}
 	}
 	c.T = genTs(t, 4)
 	// parameters exactly at vertices (the lookup boundary)
@@ -352,7 +356,7 @@ func (c segCase) points() ([]kit.V2, error) {
 	pts := []kit.V2{c.Start}
 	for i, d := range c.Steps {
 		n := d.Norm()
-		if !(n > 1e-3) || !(c.Lens[i] >= 0.0499 && c.Lens[i] <= 3.01) {
+		if !(n > 1e-3) || !(c.Lens[i] >= 0.0499 && c.Lens[i] <= 3.01 || c.Lens[i] == 0 && i < len(c.Steps)-1) {
 			return nil, fmt.Errorf("%w: degenerate segment in the case", kit.ErrInfra)
 		}
 		pts = append(pts, pts[i].Add(d.Scale(c.Lens[i]/n)))
@@ -364,6 +368,9 @@ func (c segCase) points() ([]kit.V2, error) {
 func walk(pts []kit.V2, l float64) (kit.V2, int) {
 	for i := 0; i+1 < len(pts); i++ {
 		d := pts[i].Dist(pts[i+1])
+		if d == 0 && i+2 < len(pts) {
+			continue // a repeated vertex: no length, the point is the same on either side
+		}
 		if l <= d || i+2 == len(pts) {
 			return pts[i].Add(pts[i+1].Sub(pts[i]).Scale(l / d)), i
 		}
@@ -406,6 +413,12 @@ func checkSegCurve(c segCase, o *kit.Obs) error {
 		total += pts[i].Dist(pts[i+1])
 	}
 	o.Labelf("segments:%d", len(segs))
+	for i := 0; i+1 < len(pts); i++ {
+		if pts[i] == pts[i+1] {
+			o.Label("repeated-vertex")
+			break
+		}
+	}
 	scale := ptScale(pts) + total
 	for _, t := range c.T {
 		if !(t >= 0 && t <= 1) {
